@@ -130,6 +130,7 @@ func (st *State) global(g *ssa.Global) *Obj {
 		st.nextObj++
 		o.id = st.nextObj
 	}
+	o.isGlobal = g.Pkg != nil && st.e.inRepoPkg(g.Pkg.Pkg.Path()) && !strings.HasPrefix(g.Name(), "vx") && !strings.HasPrefix(g.Name(), "init$")
 	st.globals[g] = o
 	return o
 }
@@ -156,6 +157,10 @@ func (st *State) callFunction(fn *ssa.Function, args []Value, bind []Value) Valu
 	defer func() { st.depth-- }()
 	if st.depth <= 3 || st.e.inRepo(fn) {
 		st.noteFunc(fn)
+	}
+	if st.isLibraryFn(fn) {
+		st.inLibrary++
+		defer func() { st.inLibrary-- }()
 	}
 	fi := st.info(fn)
 	fr := &frame{fn: fn, info: fi, locals: make([]Value, fi.n), bind: bind}
@@ -558,6 +563,9 @@ func (st *State) store(p Ptr, t types.Type, v Value) {
 }
 
 func (st *State) writeCell(o *Obj, idx int, v Value) {
+	if o.isGlobal && st.h != nil && st.h.Name != "<init>" && st.inLibrary > 0 {
+		st.globalWrites = append(st.globalWrites, o.label)
+	}
 	if o.frozen {
 		old := o.cells[idx]
 		same := st.valueEq(old, v)
@@ -1112,4 +1120,31 @@ var _ = math.Inf
 // tryIfConvert: placeholder for if-conversion of pure diamonds (not implemented: always forks).
 func (st *State) tryIfConvert(fr *frame, b *ssa.BasicBlock, c *Term) (*ssa.BasicBlock, bool) {
 	return nil, false
+}
+
+// isLibraryFn: a function of the repository itself (not of a harness file).
+func (st *State) isLibraryFn(fn *ssa.Function) bool {
+	if v, ok := st.libFn[fn]; ok {
+		return v
+	}
+	if st.libFn == nil {
+		st.libFn = map[*ssa.Function]bool{}
+	}
+	r := st.e.inRepo(fn)
+	if r {
+		f := fn
+		for f.Parent() != nil {
+			f = f.Parent()
+		}
+		if f.Pos().IsValid() {
+			name := st.e.prog.Fset.Position(f.Pos()).Filename
+			if _, isOv := st.e.overlay[name]; isOv {
+				r = false
+			}
+		} else if strings.HasPrefix(f.Name(), "Vx") || strings.HasPrefix(f.Name(), "vx") {
+			r = false
+		}
+	}
+	st.libFn[fn] = r
+	return r
 }
